@@ -332,4 +332,103 @@ theorem C03_model_pubkey_compressed (blob : Bytes) :
     (decide (blob.length ≠ 33) || !(decide (blob.head? = some 2) || decide (blob.head? = some 3))) = !isCompressedPubKey blob := by
   first | exact C03M_pubkey_compressed .. | (apply C03M_pubkey_compressed <;> assumption)
 
+/-! ## the CHECKSIG family, every opcode, every script (twins of `C03M_*`) -/
+
+section
+variable (chk : Bytes → Bytes → Bytes → Bool → Bool) (cfg : Config)
+
+/-- `der.sigdecode_der_lax` (index based port) = `ecdsa_signature_parse_der_lax` of the specification on **every** byte
+string: same failures, same `(r, s)` — up to libsecp256k1 overwriting an out-of-range signature with `(0, 0)` -/
+theorem C03_model_sigenc_lax (sig : Bytes) : laxDerParse sig = (sigdecodeDerLax sig).map normSig := by
+  first | exact C03M_sigenc_lax .. | (apply C03M_sigenc_lax <;> assumption)
+
+/-- every signature that passes `IsValidSignatureEncoding` is read by the lax parser (so LOW_S never meets an
+unparseable signature) -/
+theorem C03_model_sigenc_valid_parses (sig : Bytes) (hv : isValidSignatureEncoding sig = true) :
+    ∃ r s, sigdecodeDerLax sig.dropLast = some (r, s) := by
+  first | exact C03M_sigenc_valid_parses .. | (apply C03M_sigenc_valid_parses <;> assumption)
+
+/-- `parse_and_check_signature_blob(sig, flags)` = `CheckSignatureEncoding(sig, flags)` for every byte string and flag
+set: it raises exactly when Core rejects (DERSIG/LOW_S/STRICTENC ⇒ strict DER; LOW_S ⇒ low S on the lax-parsed pair;
+STRICTENC ⇒ defined hash type), and otherwise yields a pair exactly when the blob is non-empty and lax-parsable -/
+theorem C03_model_sigenc_blob (sig : Bytes) (n : Nat) :
+    (∃ e, parseAndCheckSignatureBlob sig n = .error e ∧ (checkSignatureEncoding sig (Flags.ofBits n)).isSome = true) ∨
+    (∃ p, parseAndCheckSignatureBlob sig n = .ok p ∧ checkSignatureEncoding sig (Flags.ofBits n) = none ∧
+        (p == .parsed) = (!sig.isEmpty && (laxDerParse sig.dropLast).isSome)) := by
+  first | exact C03M_sigenc_blob .. | (apply C03M_sigenc_blob <;> assumption)
+
+/-- Core's `CheckSig` (`Spec/Secp256k1.checkSigWith`: key parse, empty signature, lax DER, ECDSA) has the early exits
+`ChkWF` asks for, whatever the signature hash: the hypothesis of the theorems below is satisfied by the real thing -/
+theorem C03_model_chk_wf_core (sighash : Bytes → Bool → Nat → Bytes) :
+    ChkWF (fun sig pk code w => Spec.Secp256k1.checkSigWith (sighash code w) sig pk) := by
+  first | exact C03M_chk_wf_core .. | (apply C03M_chk_wf_core <;> assumption)
+
+/-- **checksigs_eq**: the two nested `while` loops of `checksigs` (pycoin pops signatures and keys from the end, parses
+a signature once, tries it on keys while more keys than signatures remain) give the verdict of Core's
+`while (fSuccess && nSigsCount > 0)` loop, for **all** signature and key lists with `#sigs ≤ #keys` (no bound of 20
+needed), every flag set; both encodings are checked for every pair either side examines. Induction on the signature
+list, inner induction on the key list. -/
+theorem C03_model_checksigs_eq (hwp : hasFlag cfg.flags Gen.VM.VERIFY_WITNESS_PUBKEYTYPE = true → cfg.witness = true)
+    (hchk : ChkWF chk) (code : Bytes) (sigs pubs : List Bytes) (h : sigs.length ≤ pubs.length) :
+    (checksigsLoop (stdEnv chk) cfg (.ok code) sigs pubs).toOption = (specMulti chk cfg code sigs pubs).toOption := by
+  first | exact C03M_checksigs_eq .. | (apply C03M_checksigs_eq <;> assumption)
+
+/-- C03.step_eq, OP_CHECKSIG / OP_CHECKSIGVERIFY at handler level, for every Core state: stack depth, both encodings,
+the check, NULLFAIL, the VERIFY suffix -/
+theorem C03_model_step_eq_checksig (hwp : hasFlag cfg.flags Gen.VM.VERIFY_WITNESS_PUBKEYTYPE = true → cfg.witness = true)
+    (hchk : ChkWF chk) : ∀ op ∈ [0xac, 0xad],
+    ∃ h, Gen.VM.lookupList[op]? = some (h, false) ∧
+      ∀ (st : Consensus.State) (pc' : Nat), (∀ sigs, (∀ x ∈ sigs, x ∈ st.stack) → DelAgrees cfg st sigs) →
+        Agree pc' (runHandler (stdEnv chk) cfg h (absS st pc')) (specCheckSig chk cfg st op) := by
+  first | exact C03M_step_eq_checksig .. | (apply C03M_step_eq_checksig <;> assumption)
+
+/-- C03.step_eq, OP_CHECKMULTISIG / OP_CHECKMULTISIGVERIFY at handler level, for every Core state and all `m ≤ n ≤ 20`:
+4-byte minimal counts and their ranges, stack depth, NULLDUMMY, the matching loops, NULLFAIL, the VERIFY suffix, and the
+op-count contribution of the key count — Core adds it and tests the limit before looking at the keys, pycoin
+(`vm.op_count += key_count` at the very end) only afterwards, so the comparison is made through `cntCheck`, the test
+`eval_instruction` applies right after the handler -/
+theorem C03_model_step_eq_checkmultisig (hwp : hasFlag cfg.flags Gen.VM.VERIFY_WITNESS_PUBKEYTYPE = true → cfg.witness = true)
+    (hchk : ChkWF chk) : ∀ op ∈ [0xae, 0xaf],
+    ∃ h, Gen.VM.lookupList[op]? = some (h, false) ∧
+      ∀ (st : Consensus.State) (pc' : Nat), (∀ sigs, (∀ x ∈ sigs, x ∈ st.stack) → DelAgrees cfg st sigs) →
+        ((runHandler (stdEnv chk) cfg h (absS st pc')).bind cntCheck).toOption =
+          (specCheckMultiSig chk cfg st op).toOption.map (absS · pc') := by
+  first | exact C03M_step_eq_checkmultisig .. | (apply C03M_step_eq_checkmultisig <;> assumption)
+
+/-- C03.step_eq at the level of `VM.eval_instruction`, **all 256 opcode values**: for every Core state `st` and every
+position `pc` inside the script, one `eval_instruction` on the pycoin state representing `st` and one iteration of
+Core's `EvalScript` loop both fail or both succeed with corresponding states.  Hypotheses: MINIMALIF and
+WITNESS_PUBKEYTYPE are only given to witness VMs (`check_solution` strips them otherwise: discharged in
+`C03M_verify_eq`), `ChkWF chk`, and signature deletion agrees for the signatures on this stack (trivial for witness VMs). -/
+theorem C03_model_step_eq (st : Consensus.State) (pc : Nat) (hpc : pc < cfg.script.length)
+    (hw : hasFlag cfg.flags Gen.VM.VERIFY_MINIMALIF = true → cfg.witness = true)
+    (hwp : hasFlag cfg.flags Gen.VM.VERIFY_WITNESS_PUBKEYTYPE = true → cfg.witness = true) (hchk : ChkWF chk)
+    (hdel : ∀ sigs, (∀ x ∈ sigs, x ∈ st.stack) → DelAgrees cfg st sigs) :
+    match getScriptOp (cfg.script.drop pc) with
+    | none => (evalInstruction (stdEnv chk) cfg (absS st pc)).toOption = none
+    | some (op, data, _, size) =>
+        Agree (pc + size) (evalInstruction (stdEnv chk) cfg (absS st pc)) (specStep chk cfg st op data (pc + size)) := by
+  first | exact C03M_step_eq .. | (apply C03M_step_eq <;> assumption)
+
+/-- C03.eval_eq, **every script**: `VM(script, …, initial_stack).eval_script()` and Core's `EvalScript` give the same
+verdict and, on success, the same final stack, for all scripts, initial stacks, flag sets, transaction contexts and
+both signature versions (CHECKSIG family included). -/
+theorem C03_model_eval_eq (hw : hasFlag cfg.flags Gen.VM.VERIFY_MINIMALIF = true → cfg.witness = true)
+    (hwp : hasFlag cfg.flags Gen.VM.VERIFY_WITNESS_PUBKEYTYPE = true → cfg.witness = true) (hchk : ChkWF chk)
+    (stack : List Bytes) (hdel : SigDelShared chk cfg stack) :
+    (evalScript (stdEnv chk) cfg stack).toOption.map (·.stack) =
+      (Consensus.evalScript (specChk chk) stack cfg.script (Flags.ofBits cfg.flags)
+        ⟨cfg.ctx.version, cfg.ctx.lockTime, cfg.ctx.sequence⟩ (if cfg.witness then .witnessV0 else .base)).toOption := by
+  first | exact C03M_eval_eq .. | (apply C03M_eval_eq <;> assumption)
+
+/-- C03.eval_eq for witness (BIP143) VMs: no hypothesis beyond `ChkWF` — every witness script, every initial stack,
+every flag set -/
+theorem C03_model_eval_eq_witness (hchk : ChkWF chk) (hwit : cfg.witness = true) (stack : List Bytes) :
+    (evalScript (stdEnv chk) cfg stack).toOption.map (·.stack) =
+      (Consensus.evalScript (specChk chk) stack cfg.script (Flags.ofBits cfg.flags)
+        ⟨cfg.ctx.version, cfg.ctx.lockTime, cfg.ctx.sequence⟩ .witnessV0).toOption := by
+  first | exact C03M_eval_eq_witness .. | (apply C03M_eval_eq_witness <;> assumption)
+
+end
+
 end Pycoin.VM
